@@ -195,6 +195,11 @@ def worker(job):
             oids = req.oids()
             if req.pdu["tag"] == B.PDU_GET:
                 return agent.reply(req, [B.enc_varbind(o, B.enc_int(7)) for o in oids])
+            if box.get("walk_long"):
+                # an endless supply of increasing entries below the requested OID (the caller will abandon the walk)
+                box["n_long"] = box.get("n_long", 0) + 1
+                return agent.reply(req, [B.enc_varbind(oids[0][:len(oids[0])] + (1,) * box["n_long"], B.enc_int(7))]) if False else \
+                    agent.reply(req, [B.enc_varbind(oids[0] + (1,), B.enc_int(7)), B.enc_varbind(oids[0] + (2,), B.enc_int(7))][:1 if req.pdu["tag"] == B.PDU_GETNEXT else 2])
             if box.get("walk_served"):
                 return agent.reply(req, [B.enc_varbind(oids[0], M.EXC_TLV["EndOfMibView"])])
             box["walk_served"] = True
@@ -217,6 +222,12 @@ def worker(job):
             s.encode("utf-8")
         except UnicodeEncodeError:
             continue
+        if op in ("getnext", "getbulk", "fetch") and i % 4 == 1 and must_accept(s) is not None:
+            # history: walk this text, leave the walk after its first item, then (below) walk the same text again
+            box["walk_long"] = True
+            drv.call(op, s, limit=1)
+            box["walk_long"] = False
+            box["reqs"], box["walk_served"] = [], False
         if op == "get_many":
             other = "1.3.6.1.2.1.1.1.0"
             pos = rng.randrange(2)
